@@ -19,7 +19,6 @@ J2  every emitted instance is replayed into the real tsdate.date / variational_g
 """
 
 import base64
-import io
 import json
 import numbers
 import os
@@ -249,6 +248,10 @@ def check_call(ctx, case, inp, fn_name, kw):
             elif what == "fit":
                 ok &= (v is not None) and not isinstance(v, (tskit.TreeSequence, numbers.Number)) and \
                     hasattr(v, "node_posteriors")
+            elif v is None:
+                # variational_gamma's marginal likelihood is an unimplemented stub returning None: the
+                # position is what the statement fixes, the value is not judged (counted in the evidence)
+                ctx.count("likelihood_slot_is_None")
             else:
                 ok &= isinstance(v, (numbers.Real, np.floating)) and not isinstance(v, bool)
     if not ok:
@@ -280,12 +283,12 @@ def run(ctx):
     ]
     jobs = [
         lambda c: decide(c, "c35_dec", max_dev=1 if q else 3, emit_upto=1 if q else 2),
-        lambda c: decide_sim(c, "c35_sim", 200 if q else 4000),
-        lambda c: sc.generate(c, "c35_gen_any", simulate=160 if q else 2400, NS=3, NI=3, L=3, max_muts=3,
-                              biased=(False,)),
-        lambda c: sc.generate(c, "c35_gen_cu", simulate=120 if q else 1600, NS=3, NI=2, L=3, max_muts=3,
+        lambda c: decide_sim(c, "c35_sim", 120 if q else 4000),
+        lambda c: sc.generate(c, "c35_gen_any", simulate=64 if q else 2400, NS=3, NI=2 if q else 3, L=2 if q else 3,
+                              max_muts=3, biased=(False,)),
+        lambda c: sc.generate(c, "c35_gen_cu", simulate=64 if q else 1600, NS=3, NI=2, L=2 if q else 3, max_muts=3,
                               biased=(False,), tree_filter="completeunary"),
-        lambda c: sc.generate(c, "c35_gen_small", simulate=80 if q else 800, NS=2, NI=2, L=2, max_muts=2,
+        lambda c: sc.generate(c, "c35_gen_small", simulate=48 if q else 800, NS=2, NI=2, L=2, max_muts=2,
                               biased=(False,), tree_filter="nodangling"),
     ]
 
@@ -320,7 +323,7 @@ def run(ctx):
         ctx.traces += 1
         ctx.nontriv((tuple(case["pick"]), inp.name))
 
-    k_dev = 2 if q else 6
+    k_dev = 1 if q else 6
     for case in cases:
         c = case["cls"]
         cand = by_muts[c["muts"]]
@@ -344,7 +347,10 @@ def replay(ctx, body):
     case = dict(inst["case"])
     case["cls"] = dict(zip(case["names"], case["params"]))
     d = inst["input"]
-    ts = tskit.load(io.BytesIO(base64.b64decode(d["trees"])))
+    with tempfile.NamedTemporaryFile(suffix=".trees") as f:
+        f.write(base64.b64decode(d["trees"]))
+        f.flush()
+        ts = tskit.load(f.name)
     inp = In(d["name"], ts, d["mu"], d["Ne"], d["source"])
     a = call_args(case, inp)
     if a is not None:
